@@ -55,10 +55,12 @@ func builtinNumberToFixed(call FunctionCall) Value {
 	if 20 < precision || 0 > precision {
 		panic(call.runtime.panicRangeError("toFixed() precision must be between 0 and 20"))
 	}
-	if call.This.IsNaN() {
+	// Will throw a TypeError if ThisObject is not a Number
+	this := call.thisClassObject(classNumberName).primitiveValue()
+	if this.IsNaN() {
 		return stringValue("NaN")
 	}
-	value := call.This.float64()
+	value := this.float64()
 	if value == 0 {
 		value = 0 // -0 is formatted like +0
 	}
@@ -85,10 +87,12 @@ func builtinNumberToFixed(call FunctionCall) Value {
 }
 
 func builtinNumberToExponential(call FunctionCall) Value {
-	if call.This.IsNaN() {
+	// Will throw a TypeError if ThisObject is not a Number
+	this := call.thisClassObject(classNumberName).primitiveValue()
+	if this.IsNaN() {
 		return stringValue("NaN")
 	}
-	if infinity := call.This.float64(); math.IsInf(infinity, 0) {
+	if infinity := this.float64(); math.IsInf(infinity, 0) {
 		return stringValue(floatToString(infinity, 64))
 	}
 	precision := float64(-1)
@@ -98,7 +102,7 @@ func builtinNumberToExponential(call FunctionCall) Value {
 			panic(call.runtime.panicRangeError("toExponential() precision must be between 0 and 20"))
 		}
 	}
-	value := call.This.float64()
+	value := this.float64()
 	if value == 0 {
 		value = 0 // -0 is formatted like +0
 	}
@@ -106,21 +110,23 @@ func builtinNumberToExponential(call FunctionCall) Value {
 }
 
 func builtinNumberToPrecision(call FunctionCall) Value {
-	if call.This.IsNaN() {
+	// Will throw a TypeError if ThisObject is not a Number
+	this := call.thisClassObject(classNumberName).primitiveValue()
+	if this.IsNaN() {
 		return stringValue("NaN")
 	}
 	value := call.Argument(0)
 	if value.IsUndefined() {
-		return stringValue(call.This.string())
+		return stringValue(this.string())
 	}
-	if infinity := call.This.float64(); math.IsInf(infinity, 0) {
+	if infinity := this.float64(); math.IsInf(infinity, 0) {
 		return stringValue(floatToString(infinity, 64))
 	}
 	precision := toIntegerFloat(value)
 	if 1 > precision || 21 < precision {
 		panic(call.runtime.panicRangeError("toPrecision() precision must be between 1 and 21"))
 	}
-	number := call.This.float64()
+	number := this.float64()
 	if number == 0 {
 		number = 0 // -0 is formatted like +0
 	}
